@@ -7,7 +7,7 @@
    definitions on the implementation, in all argument modes.
    permute is refuted on the unchanged tree (and pinned by test_permute_1): see C24_permute_refuted. *)
 From Coq Require Import List ZArith Bool Arith Permutation.
-From PV Require Import Model.Term Model.Subst Model.Unify Model.FD Model.State Model.Engine Proofs.EngineProofs Proofs.UnifyProofs Proofs.SemProofs Proofs.MonoProofs Proofs.RelSound Gen.RelDefs Proofs.DenProofs Proofs.RelSound2.
+From PV Require Import Model.Term Model.Subst Model.Unify Model.FD Model.State Model.Engine Proofs.EngineProofs Proofs.UnifyProofs Proofs.SemProofs Proofs.MonoProofs Proofs.RelSound Gen.RelDefs Proofs.DenProofs Proofs.RelSound2 Spec.StreamSem Proofs.StreamProofs Proofs.FDDen Proofs.FDComp Proofs.FDProg Proofs.FairProofs Proofs.ScopeElab Proofs.ScopeState Proofs.Complete0 Proofs.ForceC Proofs.RelComplete Proofs.LibComplete.
 Import ListNotations.
 
 Definition q0 := TVar 100 false.
@@ -161,6 +161,58 @@ Proof. exact member_sound. Qed.
 Theorem C24_member_sound_lists : forall x xs, MemberV x (list_term xs) -> In x xs.
 Proof. exact MemberV_list. Qed.
 
+(* UNBOUNDED COMPLETENESS of append and member on the translated definitions, every mode, arbitrary terms:
+   whenever a valuation th solves the state the call starts from (substitution, disequalities, domains,
+   constraints) and the VALUES of the arguments under th are in the relation, the call delivers after
+   finitely many steps an answer solved by a valuation th' that agrees with th on every variable that
+   existed before the call - no solution of the relation is lost, whatever else the state holds.
+   (emitsE: delivered within n steps, or an engine step ends in an error outcome first.)  With
+   C24_append_sound / C24_member_sound: the solutions of the delivered answers are exactly the relation. *)
+Theorem C24_append_complete : forall x y z, AppendV x y z ->
+  forall st th a b c, MstG th st -> GoodS st -> stb st ->
+  tb (st_nextv st) a -> tb (st_nextv st) b -> tb (st_nextv st) c ->
+  app th a = x -> app th b = y -> app th c = z ->
+  exists ans th' n, agree (st_nextv st) th th' /\ MstG th' ans /\
+    emitsE (startq lib_defs) n (startq lib_defs (CCall BFS rel_append [a; b; c]) st) ans.
+Proof. exact append_complete. Qed.
+Theorem C24_member_complete : forall x l, MemberV x l ->
+  forall st th a b, MstG th st -> GoodS st -> stb st ->
+  tb (st_nextv st) a -> tb (st_nextv st) b -> app th a = x -> app th b = l ->
+  exists ans th' n, agree (st_nextv st) th th' /\ MstG th' ans /\
+    emitsE (startq lib_defs) n (startq lib_defs (CCall BFS rel_member [a; b]) st) ans.
+Proof. exact member_complete. Qed.
+(* the general theorem they instantiate: any program built from ==, !=, domains, constraints, interleaving
+   conjunction / disjunction, fresh and CALLS of recursively defined relations, for any definitions and any
+   step-indexed value-level reading RelV of the relations that unfolds to the reading of the elaborated
+   body (at every counter): no solution is lost *)
+Theorem C24_calls_complete : forall defs (RelV : nat -> nat -> list term -> Prop),
+  (forall r vals, ~ RelV 0%nat r vals) ->
+  (forall k r args th m, RelV (S k) r (map (app th) args) -> Forall (tb m) args ->
+     exists d c nv th', find_def r defs = Some d /\
+       elab defs efuel BFS (combine (d_params d) args) (GConj [d_body d]) m = (c, nv) /\
+       agree m th th' /\ DenV RelV k th' c /\ flatV c) ->
+  forall k g th st, DenV RelV k th g -> flatV g -> MstG th st -> GoodS st -> stb st -> gb (st_nextv st) g ->
+  exists a th' n, agree (st_nextv st) th th' /\ MstG th' a /\ emitsE (startq defs) n (startq defs g st) a.
+Proof. exact completeV_delivered. Qed.
+(* non-vacuity: the initial state meets the hypotheses, with [1;2] ++ [3] = [1;2;3] *)
+Example C24_append_complete_example :
+  exists ans th' n, MstG th' ans /\
+    emitsE (startq lib_defs) n (startq lib_defs (CCall BFS rel_append [list_term [tnum 1; tnum 2]; list_term [tnum 3]; TVar 0 false]) (empty_state 1)) ans /\
+    th' 0%nat = list_term [tnum 1; tnum 2; tnum 3].
+Proof.
+  pose (th := fun _ : nat => list_term [tnum 1; tnum 2; tnum 3]).
+  assert (M0 : MstG th (empty_state 1)) by (split; [intros x t []|]; split; [intros i c []|intros x d []]).
+  assert (G0 : GoodS (empty_state 1)) by (split; [constructor|apply WFD_empty]).
+  assert (B1 : tb 1 (list_term [tnum 1; tnum 2])) by (intros v []).
+  assert (B2 : tb 1 (list_term [tnum 3])) by (intros v []).
+  assert (B3 : tb 1 (TVar 0 false)) by (intros v [<-|[]]; constructor).
+  destruct (C24_append_complete (list_term [tnum 1; tnum 2]) (list_term [tnum 3]) (list_term [tnum 1; tnum 2; tnum 3])
+              (AV_cons _ _ _ _ (AV_cons _ _ _ _ (AV_nil _))) (empty_state 1) th
+              (list_term [tnum 1; tnum 2]) (list_term [tnum 3]) (TVar 0 false) M0 G0 (stb_empty 1) B1 B2 B3 eq_refl eq_refl eq_refl)
+    as [ans [th' [n [A [M E]]]]].
+  exists ans, th', n. split; [exact M|]. split; [exact E|]. rewrite <- (A 0%nat); [reflexivity|constructor].
+Qed.
+
 Check C24_append_backward : forall ls, In ls scope4 -> is_bag (answers [GCall rel_append [q0; q1; L ls]]) (splits ls) = true.
 (* UNBOUNDED soundness of the relations that use disequality, on the translated definitions: every valuation
    that solves a delivered answer - its substitution AND its stored disequalities - satisfies the
@@ -215,3 +267,6 @@ Print Assumptions C24_permute_sound.
 Print Assumptions C24_rember_lists.
 Print Assumptions C24_distinct_lists.
 Print Assumptions C24_member1_lists.
+Print Assumptions C24_append_complete.
+Print Assumptions C24_member_complete.
+Print Assumptions C24_calls_complete.
